@@ -20,14 +20,15 @@ NOT_DECIDED = ("column allocation arithmetic; that a column holding text gets no
                "its bars (positional arithmetic)")
 ASSUMPTIONS = []
 
-CURSORS = [
-    ("RenderTable::new", "col", {"0_usize", "(col + cell.colspan)"}),
-    ("RenderTable::new", "pos", {"0_usize", "nextpos"}),
-    ("RenderTable::new", "nextpos", {"(pos + Ord::max(cell.colspan, 1_usize))"}),
-    ("RenderTable::new", "mapped_pos", {"0_usize", "next_mapped_pos"}),
-    ("RenderTable::calc_size_estimate", "colno", {"0_usize", "(colno + cell.colspan)"}),
-    ("render_table_tree", "colno", {"0_usize", "(colno + cell.colspan)"}),
-    ("RenderTableRow::into_cells", "colno", {"0_usize", "(colno + colspan)", "(colno + cell.colspan)"}),
+# column cursors are discovered structurally (a usize local initialised to 0 and updated inside a loop over
+# RenderTableCells); the numbers are the cursors confirmed by hand per function
+CURSOR_FUNCS = {"RenderTable::new": 3, "RenderTable::calc_size_estimate": 1, "render_table_tree": 1,
+                "RenderTableRow::into_cells": 1}
+# accepted advance forms, $K = the cursor itself (canonical expressions, `+` ≙ saturating_add)
+ADVANCE = [
+    (r"\(@K@ \+ [^+]*\.colspan\)", "K + cell.colspan"),
+    (r"\(@K@ \+ Ord::max\([^+]*\.colspan, 1_usize\)\)", "K + max(cell.colspan, 1)"),
+    (r"<T>::unwrap\(<K, V, S, A>::get\(.*, &\(\$\d+ \+ Ord::max\([^+]*\.colspan, 1_usize\)\)\)\)", "colmap[pos + max(cell.colspan, 1)]"),
 ]
 
 
@@ -41,6 +42,8 @@ def check(ctx):
         ctx.guard(rid, fn)
     from .. import widths
     ctx.guard("C06-C", widths.rule_min_size_matches_shrink, "C06-C")
+    # a cell's allocated width is the sum of the columns it spans plus the separators between them (shared with C02-F)
+    ctx.guard("C06-B", widths.rule_stacked_cells_full_width, "C06-B")
 
 
 def _forms(b, l):
@@ -80,44 +83,89 @@ def _some_target(b, nb):
     return None
 
 
+def _cell_loop_next(b):
+    return [bb for bb, t in b.calls(lambda cd, t: callee_method(t) == "next" and "RenderTableCell" in ((t.get("callee") or {}).get("self_ty") or ""))]
+
+
+def _cursors(b):
+    """usize locals with a `0` initialisation and at least one other definition that lies inside a cell loop"""
+    out = []
+    nexts = _cell_loop_next(b)
+    for l, loc in enumerate(b.locals):
+        if loc["ty"] != "usize":
+            continue
+        ds = [r for r in b.defs()[l] if r[1] in b.reachable()] if all(r[0] != "arg" for r in b.defs()[l]) else []
+        if len(ds) < 2:
+            continue
+        zero = [r for r in ds if r[0] == "stmt" and (op_const((r[3].get("rv") or {}).get("use") or {}) or {}).get("int") == 0]
+        ups = [r for r in ds if r not in zero]
+        if zero and ups and any(b.dominates(nb, r[1]) for r in ups for nb in nexts):
+            out.append((l, zero, ups))
+    return out
+
+
+def _flows_to_position(b, l):
+    """does local l feed an index, a range bound, a set/map key or a colspan/col_width store?"""
+    for bb in b.reachable():
+        t = b.term(bb)
+        if t["k"] == "call" and callee_method(t) in ("index", "index_mut", "insert", "get", "get_mut", "contains", "new_sub_renderer"):
+            if any(("lidx", l) in b.atoms(a, through_calls=False) for a in t["args"][1:]):
+                return True
+        for st in b.stmts(bb):
+            rv = st.get("rv") or {}
+            if rv.get("agg") == "adt" and "Range" in str(rv.get("adt")) and any(("lidx", l) in b.atoms(o, through_calls=False) for o in rv["ops"]):
+                return True
+            if st["k"] == "assign" and st["lhs"]["p"] and any(isinstance(e, dict) and e.get("n") in ("colspan", "col_width") for e in st["lhs"]["p"]):
+                if "use" in rv and ("lidx", l) in b.atoms(rv["use"]):
+                    return True
+    return False
+
+
 def rule_a(ctx):
+    import re
     F = ctx.facts
     n = 0
-    for fn, name, want in CURSORS:
+    for fn, want_n in CURSOR_FUNCS.items():
         b = F.one(fn)
-        ls = [l for l, loc in enumerate(b.locals) if loc.get("name") == name and "usize" in loc["ty"]]
-        if not ctx.check(len(ls) == 1, "C06-A", "%s:%s:exists" % (fn, name), b.span, b.id, "%d locals named %s" % (len(ls), name)):
-            continue
-        l = ls[0]
-        forms = _forms(b, l)
-        got = {f for _bb, f in forms}
-        n += 1
-        ctx.check(got <= want and any("+" in f or f in ("nextpos", "next_mapped_pos") for f in got), "C06-A",
-                  "%s:%s:advance" % (fn, name), b.span, b.id, "cursor %s is defined as %s; expected %s" % (name, sorted(got), sorted(want)))
-        if len(forms) < 2:
-            continue
-        # the update executes on every path through the loop body: once the update block is removed, the loop's
-        # next() block can no longer reach itself
-        ups = [bb for bb, f in forms if f != "0_usize"]
-        for ubb in ups:
-            nb = _inner_next(b, ubb)
-            if nb is None:
-                ctx.violation("C06-A", "%s:%s:in-loop" % (fn, name), b.span, b.id, "cursor update is not inside a cell loop")
+        env = {}
+        good = 0
+        for (l, zero, ups) in _cursors(b):
+            k = b.canon(l, env=env)
+            forms = []
+            for r in ups:
+                if r[0] == "stmt" and "use" in r[3]["rv"]:
+                    forms.append((r[1], norm(b.canon(r[3]["rv"]["use"], env=env))))
+                elif r[0] == "call":
+                    forms.append((r[1], norm("%s(%s)" % (callee_method(r[2]), ", ".join(b.canon(a, env=env) for a in r[2]["args"])))))
+                else:
+                    forms.append((r[1], "?"))
+            pats = [re.compile(p.replace("@K@", re.escape(k))) for p, _d in ADVANCE]
+            okf = all(any(p.fullmatch(f) for p in pats) for _bb, f in forms)
+            key = "%s:cursor#%s" % (fn, "|".join(sorted(f.replace(k, "K")[:50] for _bb, f in forms)))
+            if not okf and not _flows_to_position(b, l):
+                ctx.info("C06-A", "%s: 0-initialised counter in a cell loop that feeds no position (%s) — not a column cursor" % (fn, forms))
                 continue
-            some = _some_target(b, nb)
-            if some is None:
-                ctx.violation("C06-A", "%s:%s:in-loop" % (fn, name), b.span, b.id, "cannot find the loop body entry")
-                continue
-            cyc = nb in b.reach_from(some, avoid=[ubb])
-            ctx.check(not cyc, "C06-A", "%s:%s:on-every-path" % (fn, name), b.term(ubb)["span"], b.id,
-                      "a path through the loop body skips the cursor update (cells after it would land in the wrong column)")
-    ctx.floor("C06-A", "column cursors", n, 7)
-    # into_cells: colspan is the cell's own
-    b = F.one("RenderTableRow::into_cells")
-    for l, loc in enumerate(b.locals):
-        if loc.get("name") == "colspan":
-            got = {f for _bb, f in _forms(b, l)}
-            ctx.check(got == {"cell.colspan"}, "C06-A", "into_cells:colspan=cell.colspan", b.span, b.id, str(sorted(got)))
+            n += 1
+            good += 1 if okf else 0
+            ctx.check(okf, "C06-A", key + ":advance", b.term(forms[0][0])["span"], b.id,
+                      "a column cursor is advanced as %s; accepted forms: %s" % ([f for _bb, f in forms], [d for _p, d in ADVANCE]))
+            # the update executes on every path through the loop body: once the update block is removed, the loop's
+            # next() block can no longer reach itself
+            for ubb, _f in forms:
+                nb = _inner_next(b, ubb)
+                if nb is None:
+                    ctx.violation("C06-A", key + ":in-loop", b.span, b.id, "cursor update is not inside a cell loop")
+                    continue
+                some = _some_target(b, nb)
+                if some is None:
+                    ctx.violation("C06-A", key + ":in-loop", b.span, b.id, "cannot find the loop body entry")
+                    continue
+                cyc = nb in b.reach_from(some, avoid=[ubb])
+                ctx.check(not cyc, "C06-A", key + ":on-every-path", b.term(ubb)["span"], b.id,
+                          "a path through the loop body skips the cursor update (cells after it would land in the wrong column)")
+        ctx.check(good >= want_n, "C06-A", "%s:cursors-present" % fn, b.span, b.id,
+                  "%d column cursor(s) advancing by the cell's colspan found, %d confirmed by hand" % (good, want_n))
+    ctx.floor("C06-A", "column cursors", n, 6)
 
 
 def rule_b(ctx):
@@ -143,25 +191,34 @@ def rule_b(ctx):
         at = b.atoms(ops["col_width"])
         ctx.check(("agg", "std::option::Option", "None") in at, "C06-B", "col_width:initially-None@%s" % fn_key(b), st["span"], b.id, "")
     # into_cells sizes come from the row's col_sizes, set by into_rows from render_table_tree's col_widths
+    # into_cells sizes come from the row's col_sizes, set by into_rows from render_table_tree's column widths:
+    # the vector handed to into_rows is defined only by collecting over the column estimates and by the shrink loop
+    from ..widths import table_locals
+    b, W, V, S = table_locals(F)
+    kinds = sorted({(r[0], callee_method(r[2]) if r[0] in ("call", "mutcall") else "") for r in b.defs()[W]})
+    nst = len([r for r in b.defs()[W] if r[0] == "stmt"])  # the shrink loop's single decrement (C06-C)
+    ctx.check(set(kinds) <= {("call", "collect"), ("mutcall", "index_mut"), ("stmt", "")} and ("call", "collect") in kinds and nst <= 1, "C06-B",
+              "into_rows(col_widths)", b.span, b.id, "the widths handed to into_rows are defined by %s" % kinds)
     ir = F.one("RenderTable::into_rows")
-    cs = F.call_sites(lambda cd, t: cd == ir.id)
-    okc = len(cs) == 1 and ends(cs[0][0].id, "render_table_tree") and "col_widths" in norm(cs[0][0].expr(cs[0][2]["args"][1]))
-    ctx.check(okc, "C06-B", "into_rows(col_widths)", ir.span, ir.id, "")
+    ctx.check(len(F.call_sites(lambda cd, t: cd == ir.id)) == 1, "C06-B", "into_rows:single-caller", ir.span, ir.id, "")
 
 
 def rule_c(ctx):
     F = ctx.facts
-    b = F.one("render_table_tree")
+    from ..widths import table_locals
+    b, W, V, S = table_locals(F)
+    env = {}
+    wsym = b.canon(W, env=env)
     # the decrement: col_widths[i] -= 1
     dec = []
     for bb in sorted(b.reachable()):
         for st in b.stmts(bb):
             if st["k"] == "assign" and st["lhs"]["p"] and "use" in st["rv"]:
-                ex = norm(b.expr(st["rv"]["use"]))
-                if "index_mut(&mut col_widths" in norm(b.expr(st["lhs"])) or ("col_widths" in norm(b.expr(st["lhs"])) and ex.endswith("- 1_usize)")):
-                    dec.append((bb, st, ex))
-    if not ctx.check(len(dec) == 1 and dec[0][2].endswith("- 1_usize)"), "C06-C", "shrink:one-decrement-by-1", b.span, b.id,
-                     "decrements: %s" % [d[2] for d in dec]):
+                lhs = norm(b.canon(st["lhs"], env=env))
+                if "index_mut(&mut %s" % wsym in lhs:
+                    dec.append((bb, st, norm(b.canon(st["rv"]["use"], env=env)), lhs))
+    if not ctx.check(len(dec) == 1 and dec[0][2] == "(%s - 1_usize)" % dec[0][3], "C06-C", "shrink:one-decrement-by-1", b.span, b.id,
+                     "stores into the column widths: %s" % [d[2] for d in dec]):
         return
     dbb = dec[0][0]
     # loop = blocks that can reach dbb and are reachable from dbb
@@ -179,11 +236,13 @@ def rule_c(ctx):
         truth, src = edge_is_true(b, x, s)
         okc = src is not None and src[0] == "bin" and src[1]["bin"] in ("Le", "Ge")
         if okc:
-            ea, eb = norm(b.expr_top(src[1]["a"], expand_named=True)), norm(b.expr_top(src[1]["b"], expand_named=True))
+            ea, eb = norm(b.canon(src[1]["a"], env=env)), norm(b.canon(src[1]["b"], env=env))
+            from ..widths import _is_width_call
+            wop = src[1]["b"]
             if src[1]["bin"] == "Ge":
                 ea, eb = eb, ea
-            okc = truth is True and "sum(" in ea and "- 1_usize" in ea and ("len(&col_widths)" in ea) and "Renderer::width(" in eb or \
-                (truth is True and ea.count("+") >= 1 and "sum" in ea and "width(" in eb)
+                wop = src[1]["a"]
+            okc = truth is True and "sum(" in ea and "- 1_usize" in ea and ("len(&%s)" % wsym in ea) and _is_width_call(b, wop)
             ctx.check(okc, "C06-C", "shrink:exit-iff-Σw+n−1<=width", b.term(x)["span"], b.id, "exit condition: %s <= %s" % (ea[:90], eb[:60]))
         else:
             ctx.violation("C06-C", "shrink:exit-iff-Σw+n−1<=width", b.term(x)["span"], b.id, "exit is not a <= comparison")
@@ -193,9 +252,14 @@ def rule_c(ctx):
         cyc = h in b.reach_from(b.succ(h)[0], avoid=[dbb]) if b.succ(h) else False
         ctx.check(not cyc, "C06-C", "shrink:every-iteration-decrements", b.term(h)["span"], b.id, "")
     # the loop only runs in the side-by-side layout
-    ok_guard = any(b.dominates(a, dbb) and edge_is_true(b, a, s)[1] and edge_is_true(b, a, s)[1][0] == "place" and
-                   b.local_name(edge_is_true(b, a, s)[1][1]["l"]) == "vert_row" and edge_is_true(b, a, s)[0] is False
-                   for a in b.reachable() if b.term(a)["k"] == "switch" for s in b.succ(a) if b.dominates(s, dbb))
+    ok_guard = False
+    for a in b.reachable():
+        if b.term(a)["k"] == "switch":
+            for s in b.succ(a):
+                if b.dominates(s, dbb) and b.dominates(a, dbb):
+                    truth, src = edge_is_true(b, a, s)
+                    if truth is False and src and src[0] == "place" and is_bare(src[1]) and src[1]["l"] == V:
+                        ok_guard = True
     ctx.check(ok_guard, "C06-C", "shrink:only-when-side-by-side", b.term(dbb)["span"], b.id, "")
 
 
@@ -219,25 +283,34 @@ def rule_e(ctx):
     for b, bb, w, _ in ws:
         if "tbody_to_render_tree" in b.id:
             st = b.stmts(bb)[w[1]]
-            ex = norm(b.expr(st["rv"]["use"])) if "use" in st["rv"] else "?"
-            okc = ex.endswith("+ 1_usize)") and "max_columns" in ex
+            ex = norm(b.canon(st["rv"]["use"])) if "use" in st["rv"] else "?"
+            # (max over rows of the column count − this row's count) + 1
+            okc = ex.endswith("+ 1_usize)") and "::sub(" in ex and "Iterator::max(" in ex
             # governed by colspan == 0
             gov = False
             for (a, s) in b.cdeps_transitive(bb):
                 truth, src = edge_is_true(b, a, s)
                 if src and src[0] == "bin" and src[1]["bin"] == "Eq" and truth is True:
-                    ea, eb = norm(b.expr(src[1]["a"])), norm(b.expr(src[1]["b"]))
+                    ea, eb = norm(b.canon(src[1]["a"])), norm(b.canon(src[1]["b"]))
                     if "colspan" in ea + eb and "0_usize" in (ea, eb):
                         gov = True
             ctx.check(okc and gov, "C06-E", "tbody:colspan-0-replaced-by>=1", st["span"], fn_key(b), "colspan := %s" % ex)
     # RenderTable::new: inserted positions vs looked-up positions
     b = F.one("RenderTable::new")
     ins = [(bb, t) for bb, t in b.calls(lambda cd, t: callee_method(t) == "insert" and "BTreeSet" in (callee_def(t) or ""))]
-    got_ins = sorted(norm(b.expr(t["args"][1])) for bb, t in ins)
-    ctx.check(got_ins == ["0_usize", "col"], "C06-E", "remap:inserted-positions={0, running Σcolspan}", b.span, b.id, str(got_ins))
+    env = {}
+    got_ins = sorted(norm(b.canon(t["args"][1], env=env)) for bb, t in ins)
+    import re
+    okc = len(got_ins) == 2 and got_ins[1] == "0_usize" and re.fullmatch(r"\$\d+", got_ins[0]) is not None
+    if okc:
+        # the inserted running position is a cursor advancing by the cell's colspan (C06-A)
+        cur = [l for (l, z, u) in _cursors(b) if b.canon(l, env=env) == got_ins[0]]
+        okc = len(cur) == 1
+    ctx.check(okc, "C06-E", "remap:inserted-positions={0, running Σcolspan}", b.span, b.id, str(got_ins))
     gets = b.calls(lambda cd, t: callee_method(t) == "get" and "HashMap" in (callee_def(t) or ""))
-    okc = len(gets) == 1 and norm(b.expr(gets[0][1]["args"][1])) == "&nextpos"
-    ctx.check(okc, "C06-E", "remap:looked-up-position=running Σmax(colspan,1)", b.span, b.id, "")
+    okc = len(gets) == 1 and re.fullmatch(r"&\(\$\d+ \+ Ord::max\([^+]*\.colspan, 1_usize\)\)", norm(b.canon(gets[0][1]["args"][1], env=env))) is not None
+    ctx.check(okc, "C06-E", "remap:looked-up-position=running Σmax(colspan,1)", b.span, b.id,
+              str([norm(b.canon(g[1]["args"][1], env=env)) for g in gets]))
     # td parse default
     td = F.one("td_to_render_tree")
     uo = [(bb, t) for bb, t in td.calls(lambda cd, t: callee_method(t) == "unwrap_or")]
